@@ -72,12 +72,18 @@ pub fn gen_shape(rng: &mut Rng, size_class: u32, fails: bool, slow: bool) -> Rep
     } else {
         rng.below(6) as u32
     };
+    let partial_fields = if fail.is_some() {
+        *rng.pick(&[0u32, 0, 1, 2])
+    } else {
+        0
+    };
     ReplyShape {
         fields,
         value_len,
         binary,
         fail,
         delay_ms,
+        partial_fields,
     }
 }
 
@@ -128,6 +134,7 @@ fn gen_leaf(rng: &mut Rng, plan: &mut Plan, ids: &mut Ids, w: &Workload, size_cl
                 let mut s = gen_shape(rng, size_class.min(2), false, slow);
                 if Some(i) == fail_at {
                     s.fail = Some(*rng.pick(&[2u64, 5, 50, 56]));
+                    s.partial_fields = *rng.pick(&[0u32, 0, 1, 3]);
                 }
                 plan.replies.insert(*id, s);
             }
@@ -240,7 +247,8 @@ pub fn gen_net(rng: &mut Rng) -> NetPolicy {
         3 => vec![1, 0],
         _ => vec![0, 2, 0, 0],
     };
-    n.write_pending_ms = rng.range(1, 3) as u32;
+    // mostly short refusals; sometimes back-pressure that outlasts the client's re-idle delay
+    n.write_pending_ms = *rng.pick(&[1u32, 1, 2, 3, 3, 2, 60, 120, 250]);
     n
 }
 
@@ -455,6 +463,14 @@ pub fn gen_picture(rng: &mut Rng, uri: String, limit: usize) -> Picture {
         },
         albumart_error: if rng.chance(1, 10) {
             Some(*rng.pick(&[2u64, 4, 5, 50, 52]))
+        } else {
+            None
+        },
+        later_error: if rng.chance(1, 8) {
+            Some((
+                *rng.pick(&[1u64, 2, limit as u64, limit as u64 + 1, 3 * limit as u64, 5000]),
+                *rng.pick(&[50u64, 52, 2, 5]),
+            ))
         } else {
             None
         },
@@ -828,6 +844,9 @@ pub fn shrink_plan(plan: &Plan) -> Vec<Plan> {
             s.value_len = 0;
             s.binary = None;
             s.delay_ms = 0;
+            if s.partial_fields > 1 {
+                s.partial_fields = 1;
+            }
         }
         push(p);
     }
@@ -853,7 +872,11 @@ pub fn shrink_plan(plan: &Plan) -> Vec<Plan> {
             variants.push(ReplyShape { delay_ms: s.delay_ms / 2, ..s.clone() });
         }
         if s.fail.is_some() {
-            variants.push(ReplyShape { fail: None, ..s.clone() });
+            variants.push(ReplyShape { fail: None, partial_fields: 0, ..s.clone() });
+        }
+        if s.partial_fields > 0 {
+            variants.push(ReplyShape { partial_fields: 0, ..s.clone() });
+            variants.push(ReplyShape { partial_fields: 1, ..s.clone() });
         }
         for v in variants {
             let mut p = plan.clone();
